@@ -23,7 +23,8 @@ def family():
     yield from F.fam_cond_aux_fork()
     for label, prog, meta in F.fam_cond_aux_two():
         # quick: two conditional auxes on the SAME frame, one finishing while the other keeps running
-        if core.TIER != "quick" or ("dx0-dy0" in label and label.split("/")[1] in ("repeat1-never", "repeat1-repeat1", "never-repeat1")):
+        if core.TIER != "quick" or ("dx0-dy0" in label and label.split("/")[1] in ("repeat1-never", "repeat1-repeat1", "never-repeat1")) \
+                or ("dx0-dy1" in label and label.split("/")[1] in ("now-never", "now-repeat1")):   # instant-done aux above a running one
             yield label, prog, meta
 
 
